@@ -734,3 +734,71 @@ func ruleStageGatedAccessor(c *Ctx) {
 	}
 	c.Floor("P2P command handlers", nh, 15)
 }
+
+// ---------------------------------------------------------------------------
+// trie-copy-shares (C11): mpt.Trie holds its nodes through an interface (`root`) and its pending reference-count
+// deltas in a map (`refcount`). A value copy of a Trie (`t := *p`) shares both with the original: PutBatch/Put/Delete
+// restructure the shared node objects in place and Flush folds and rewrites the shared counter entries. If the copy
+// is then discarded - a block that was computed and dropped - the original, still installed, is no longer the trie
+// of its root: the next block panics on a negative count or computes a wrong root. A value copy of a Trie may be
+// read, re-rooted and handed on, but not mutated through.
+func ruleTrieCopyShares(c *Ctx) {
+	mut := map[string]bool{"Put": true, "PutBatch": true, "Delete": true, "Flush": true, "Collapse": true}
+	ncopy := 0
+	for _, fd := range c.P.AllFuncDecls() {
+		if fd.Decl.Body == nil || !strings.HasPrefix(pkgRel(fd.Pkg.Types), "pkg/") {
+			continue
+		}
+		info := fd.Pkg.TypesInfo
+		copies := map[types.Object]ast.Node{}
+		ast.Inspect(fd.Decl.Body, func(n ast.Node) bool {
+			as, ok := n.(*ast.AssignStmt)
+			if !ok || len(as.Lhs) != len(as.Rhs) {
+				return true
+			}
+			for i, r := range as.Rhs {
+				st, ok := ast.Unparen(r).(*ast.StarExpr)
+				if !ok || !namedTypeIs(info.TypeOf(st), "pkg/core/mpt", "Trie") {
+					continue
+				}
+				if id, ok := as.Lhs[i].(*ast.Ident); ok {
+					if o := info.ObjectOf(id); o != nil {
+						copies[o] = as
+					}
+				}
+			}
+			return true
+		})
+		for o, at := range copies {
+			ncopy++
+			key := "trie-copy-shares." + FuncKey(fd.Obj) + "." + o.Name()
+			var bad *ast.CallExpr
+			ast.Inspect(fd.Decl.Body, func(n ast.Node) bool {
+				call, ok := n.(*ast.CallExpr)
+				if !ok {
+					return true
+				}
+				se, ok := ast.Unparen(call.Fun).(*ast.SelectorExpr)
+				if !ok || !mut[se.Sel.Name] {
+					return true
+				}
+				x := ast.Unparen(se.X)
+				if u, ok := x.(*ast.UnaryExpr); ok && u.Op == token.AND {
+					x = ast.Unparen(u.X)
+				}
+				if id, ok := x.(*ast.Ident); ok && info.ObjectOf(id) == o && bad == nil {
+					if m, ok := info.ObjectOf(se.Sel).(*types.Func); ok && m.Pkg() != nil && pkgRel(m.Pkg()) == "pkg/core/mpt" {
+						bad = call
+					}
+				}
+				return true
+			})
+			if bad != nil {
+				c.Fail(key, c.P.Pos(bad.Pos()), fmt.Sprintf("%s mutates a value copy of a Trie (%s, copied at %s): the copy shares the node objects under `root` and the `refcount` map with the original, so when the result is dropped the original - still installed - has been restructured and re-counted behind its back", FuncKey(fd.Obj), types.ExprString(bad.Fun), c.P.Pos(at.Pos())))
+			} else {
+				c.OK(key, c.P.Pos(at.Pos()), "the value copy of the Trie is not mutated through")
+			}
+		}
+	}
+	c.Floor("value copies of mpt.Trie", ncopy, 1)
+}
